@@ -1,7 +1,7 @@
 // C14 driver: ReindexStates (functor overloads, weak-translator overload), CollapseStates, TranslateSymbols
 // through the public facade.
 // case:   c14 RF <addf> <T src> M <n> {k v} <off>            ReindexStates(AbstractReindexF&, addFinalStates) -> new automaton
-//         c14 RD <addf> <T src> <T dst> M <n> {k v} <off>     void ReindexStates(dst, AbstractReindexF&, addFinalStates), dst pre-built
+//         c14 RD <addf> <T src> <T dst> M <n> {k v} <off>     void ReindexStates(dst, AbstractReindexF&, addFinalStates), dst = copy of a pre-built donor (output: .. X <T donor afterwards>)
 //         c14 RW <T src> M <n> {k v} <base>                   ReindexStates(StateToStateTranslWeak&): pre-filled map, allocator base, base+1, ..
 //         c14 CS <T src> M <n> {k v}                          CollapseStates(const StateToStateMap&)
 //         c14 TS <T src> M <n> {k v} <off>                    TranslateSymbols(AbstractSymbolTranslateF&)
@@ -41,7 +41,16 @@ int main() {
 				Pairs m = readMap(t); TabReindexF f; for (auto& p : m) f.tab[p.first] = p.second; f.off = t.num();
 				Aut src = mkAut(a);
 				if (v == "RF") { Aut res = src.ReindexStates(f, addf); os << "R " << showTA(obsAut(res)); }
-				else { Aut dst = mkAut(d); src.ReindexStates(dst, f, addf); os << "R " << showTA(obsAut(dst)); }
+				else {
+					// the destination is a COPY of another live automaton (it shares the donor's copy-on-write transition table): the donor must
+					// not change. When the destination text equals the source text the donor is the source itself.
+					bool self = !(a.rules < d.rules) && !(d.rules < a.rules) && a.finals == d.finals;
+					Aut donor = self ? src : mkAut(d);
+					Aut dst(self ? src : donor);
+					src.ReindexStates(dst, f, addf); os << "R " << showTA(obsAut(dst));
+					os << " M 0 I " << showTA(obsAut(src)) << " X " << showTA(obsAut(donor));
+					return os.str();
+				}
 				os << " M 0 I " << showTA(obsAut(src));
 			} else if (v == "RW") {
 				TA a = readTA(t); Pairs m = readMap(t); U base = t.num();
